@@ -557,3 +557,8 @@ Lemma seq_top_of_range :
   /\ run_overflows (top_run (TWO64 - 6)) = true
   /\ wrap_run (top_run (TWO64 - 6)) <> top_run (TWO64 - 6).
 Proof. vm_compute. repeat split; discriminate. Qed.
+
+(* ================= T1: the model's line rule is the interpreter of the rule table the extractor reads ================= *)
+From RipV Require Import Model.SseFacts.
+Lemma line_step_is_rules cl s l : line_step cl s l = line_step_gen cl LINE_RULES CR s l.
+Proof. reflexivity. Qed.
